@@ -98,16 +98,18 @@ def run(ctx):
         spec = oracle_dec(orc, oc, blobs)
         impl, fails = impl_dec(drv, k, fl, 0, 0, blobs)
         impl3, fails3 = impl_dec(drv, k, fl, 3, lambda i: i * 13 + 5, blobs)
-        for f in fails + fails3:
+        impl1, fails1 = impl_dec(drv, k, fl, 1, 0, blobs)     # one input byte per call: a call ends exactly at every member / Stream / header boundary
+        impl7, fails7 = impl_dec(drv, k, fl, 7, 0, blobs)     # everything offered with LZMA_RUN, LZMA_FINISH only when nothing is left
+        for f in fails + fails3 + fails1 + fails7:
             ctx.violation('decoder crashed', {'line': (f[0] or '')[:20000], 'stderr': f[1], 'kind': 'sanitizer'})
-        for i, s, a, a3 in zip(idxs, spec, impl, impl3):
-            if a is None or a3 is None: continue
-            n_eval += 2
+        for i, s, a, a3, a1, a7 in zip(idxs, spec, impl, impl3, impl1, impl7):
+            if a is None or a3 is None or a1 is None or a7 is None: continue
+            n_eval += 4
             st, used, out = s
             verdicts[st] = verdicts.get(st, 0) + 1
             distinct.add((k, fl, cases[i][1].split(' ')[0] + cases[i][1].split(' ')[1][:12], st))
             why = None
-            for tag, r in (('one-shot', a), ('sliced', a3)):
+            for tag, r in (('one-shot', a), ('sliced', a3), ('byte-wise', a1), ('all input with LZMA_RUN', a7)):
                 ret, tin, tout, calls, o = r
                 if st == 'fuel': continue
                 if not same_verdict(st, ret): why = why or '%s: returned %d, format rules say %s' % (tag, ret, st)
